@@ -19,6 +19,7 @@ import (
 	"bytes"
 	"encoding/hex"
 	"fmt"
+	"math"
 	"reflect"
 	"sort"
 	"strings"
@@ -197,8 +198,9 @@ type inst struct {
 }
 
 type cfg struct {
-	Lockup   uint32 `json:"lockup"`
-	LihStart int    `json:"lih_start"` // RevertToPOWStartHeight = start + LihStart (negative: default parameter)
+	Lockup    uint32 `json:"lockup"`
+	LihStart  int    `json:"lih_start"` // RevertToPOWStartHeight = start + LihStart (negative: default parameter)
+	Penalties bool   `json:"penalties"` // non-zero inactive / emergency / illegal penalties from the first block (mainnet: 0)
 }
 
 func newInst(c cfg) *inst {
@@ -207,6 +209,12 @@ func newInst(c cfg) *inst {
 	params.CRConfiguration.DepositLockupBlocks = c.Lockup
 	if c.LihStart >= 0 {
 		params.DPoSConfiguration.RevertToPOWStartHeight = params.VoteStartHeight + uint32(c.LihStart)
+	}
+	if c.Penalties {
+		params.CRConfiguration.ChangeCommitteeNewCRHeight = params.VoteStartHeight
+		params.DPoSConfiguration.InactivePenalty = 100 * 1e8
+		params.DPoSConfiguration.EmergencyInactivePenalty = 500 * 1e8
+		params.DPoSConfiguration.IllegalPenalty = 200 * 1e8
 	}
 	ckp := checkpoint.NewManager(params)
 	abt, err := state.NewArbitrators(params, nil, nil, nil, nil, nil, nil, nil, nil, ckp)
@@ -321,6 +329,12 @@ func (d *txd) coq() string {
 		return "CRevPow"
 	case "revert-to-dpos":
 		return fmt.Sprintf("CRevDpos %d", d.Amount)
+	case "inactive-arbitrators":
+		return fmt.Sprintf("CInactive %d", d.P)
+	case "activate":
+		return fmt.Sprintf("CActivate %d", d.P)
+	case "illegal-proposal-evidence":
+		return fmt.Sprintf("CIllegal %d", d.P)
 	}
 	rs := make([]string, len(d.Refs))
 	for i, r := range d.Refs {
@@ -353,6 +367,9 @@ type gen struct {
 	modeSwitch    bool // RevertToPOW / RevertToDPOS transactions (oracle only, not in the Coq model)
 	illegal       bool // illegal-proposal evidence against active producers (oracle only)
 	v2            bool // stake / Voting payload (delegate and DPoS v2 votes) / v2 producers (oracle only)
+	reInactive    bool // inactivity / illegal evidence for a producer that carries values of an earlier inactivity
+	specialMix    bool // two special transactions on one producer in one block, or emergency-inactive on an inactive producer
+	inactive      bool // emergency InactiveArbitrators, ActivateProducer, illegal evidence against any producer
 	unmodelled    bool
 }
 
@@ -390,6 +407,9 @@ func (g *gen) block(height uint32) *blockd {
 		}
 		if g.v2 && g.rng.Chance(30) {
 			kind = 11 + g.rng.Intn(3)
+		}
+		if g.inactive && g.rng.Chance(30) {
+			kind = []int{10, 14, 14, 15, 15}[g.rng.Intn(5)]
 		}
 		if g.scripted {
 			kind, i = g.force[k][0], g.force[k][1]
@@ -541,15 +561,42 @@ func (g *gen) block(height uint32) *blockd {
 			b.Txs = append(b.Txs, d)
 			used[100+vi] = true
 			g.unmodelled = true
+		case 14: // emergency inactive arbitrators
+			if exists && (!used[i] || g.allowConflict) && (st == state.Active || (st == state.Inactive && g.allowConflict)) {
+				if used[i] || st == state.Inactive {
+					g.specialMix = true
+				}
+				if _, em := g.a.abt.EmergencyInactiveArbiters[hex.EncodeToString(keys[i])]; em || p.InactiveSince() != 0 || p.ActivateRequestHeight() != math.MaxUint32 {
+					g.reInactive = true
+				}
+				d := &txd{Kind: "inactive-arbitrators", P: i}
+				d.tx = mk(common2.TxVersion09, common2.InactiveArbitrators, &payload.InactiveArbitrators{Sponsor: keys[(i+1)%len(keys)],
+					Arbitrators: [][]byte{keys[i]}, BlockHeight: height - 1}, nil, nil, nil)
+				b.Txs = append(b.Txs, d)
+				used[i] = true
+			}
+		case 15: // activate producer
+			// the node accepts one activation request per inactive period
+			if exists && !used[i] && st == state.Inactive && !(height > p.ActivateRequestHeight() && height-p.ActivateRequestHeight() <= state.ActivateDuration) {
+				d := &txd{Kind: "activate", P: i}
+				d.tx = mk(common2.TxVersion09, common2.ActivateProducer, &payload.ActivateProducer{NodePublicKey: keys[i]}, nil, nil, nil)
+				b.Txs = append(b.Txs, d)
+				used[i] = true
+			}
 		case 10:
-			if exists && !used[i] && st == state.Active {
+			if exists && (!used[i] || (g.allowConflict && g.inactive)) && (st == state.Active || (g.inactive && (st == state.Inactive || st == state.Illegal || st == state.Canceled))) {
+				if used[i] {
+					g.specialMix = true
+				}
+				if p.ActivateRequestHeight() != math.MaxUint32 {
+					g.reInactive = true
+				}
 				d := &txd{Kind: "illegal-proposal-evidence", P: i}
 				ev := payload.ProposalEvidence{Proposal: payload.DPOSProposal{Sponsor: keys[i], ViewOffset: nonce}, BlockHeader: []byte{1}, BlockHeight: height - 1}
 				cmp := payload.ProposalEvidence{Proposal: payload.DPOSProposal{Sponsor: keys[i], ViewOffset: nonce + 1}, BlockHeader: []byte{2}, BlockHeight: height - 1}
 				d.tx = mk(common2.TxVersion09, common2.IllegalProposalEvidence, &payload.DPOSIllegalProposals{Evidence: ev, CompareEvidence: cmp}, nil, nil, nil)
 				b.Txs = append(b.Txs, d)
 				used[i] = true
-				g.unmodelled = true
 			}
 		case 9:
 			if used[-1] {
@@ -618,7 +665,8 @@ const (
 
 func project(in *inst, g *gen) []int64 {
 	K := len(keys)
-	v := make([]int64, K*11+nNick+2*nRef+9)
+	const F = 18
+	v := make([]int64, K*F+nNick+2*nRef+9)
 	a := in.abt
 	b2i := func(b bool) int64 {
 		if b {
@@ -630,7 +678,11 @@ func project(in *inst, g *gen) []int64 {
 		hk := hex.EncodeToString(key)
 		p := a.GetProducer(key)
 		if p != nil {
-			o := k * 11
+			o := k * F
+			v[o+11] = int64(p.InactiveSince())
+			v[o+12] = int64(p.ActivateRequestHeight())
+			v[o+13] = int64(p.IllegalHeight())
+			v[o+14] = int64(p.Penalty())
 			v[o+0] = int64(p.State()) + 1
 			v[o+1] = int64(p.RegisterHeight())
 			v[o+2] = int64(p.CancelHeight())
@@ -640,24 +692,30 @@ func project(in *inst, g *gen) []int64 {
 			v[o+6] = int64(p.TotalAmount())
 		}
 		_, x := a.PendingProducers[hk]
-		v[k*11+7] = b2i(x)
+		v[k*F+7] = b2i(x)
 		_, x = a.ActivityProducers[hk]
-		v[k*11+8] = b2i(x)
+		v[k*F+8] = b2i(x)
 		_, x = a.CanceledProducers[hk]
-		v[k*11+9] = b2i(x)
+		v[k*F+9] = b2i(x)
 		_, x = a.PendingCanceledProducers[hk]
-		v[k*11+10] = b2i(x)
+		v[k*F+10] = b2i(x)
+		_, x = a.InactiveProducers[hk]
+		v[k*F+15] = b2i(x)
+		_, x = a.IllegalProducers[hk]
+		v[k*F+16] = b2i(x)
+		_, x = a.EmergencyInactiveArbiters[hk]
+		v[k*F+17] = b2i(x)
 	}
 	for nick := range a.Nicknames {
-		v[K*11+g.nickIDs[nick]] = 1
+		v[K*F+g.nickIDs[nick]] = 1
 	}
 	for rk := range a.Votes {
-		v[K*11+nNick+2*g.refIDs[rk]] = 1
+		v[K*F+nNick+2*g.refIDs[rk]] = 1
 	}
 	for rk, val := range a.DepositOutputs {
-		v[K*11+nNick+2*g.refIDs[rk]+1] = int64(val)
+		v[K*F+nNick+2*g.refIDs[rk]+1] = int64(val)
 	}
-	base := K*11 + nNick + 2*nRef
+	base := K*F + nNick + 2*nRef
 	v[base] = int64(a.LastBlockTimestamp)
 	v[base+1] = int64(a.LastIrreversibleHeight)
 	v[base+2] = int64(a.DPOSStartHeight)
@@ -686,9 +744,12 @@ const (
 )
 
 const sigConflict = "State.processTransactions:cancel-tx-in-the-block-that-activates-the-pending-producer"
+const sigSpecialMix = "State.processTransactions:two-special-transactions-on-one-producer-in-one-block"
+const sigInactiveConst = "State.revertSettingInactiveProducer:undo-writes-constants-for-a-producer-inactive-before"
 
 // classify splits the differing fields into the known classes and a rest.
-func classify(fields []string, conflict bool) []string {
+func classify(fields []string, g *gen) []string {
+	conflict := g.conflict
 	var sigs, rest []string
 	for _, f := range fields {
 		switch f {
@@ -700,9 +761,20 @@ func classify(fields []string, conflict bool) []string {
 			rest = append(rest, f)
 		}
 	}
+	constOnly := g.reInactive
+	for _, f := range rest {
+		if !(strings.HasSuffix(f, ".activateRequestHeight") || strings.HasSuffix(f, ".inactiveSince") ||
+			f == "A.State.StateKeyFrame.EmergencyInactiveArbiters") {
+			constOnly = false
+		}
+	}
 	if len(rest) > 0 {
 		if conflict {
 			sigs = append(sigs, sigConflict)
+		} else if g.specialMix {
+			sigs = append(sigs, sigSpecialMix)
+		} else if constOnly {
+			sigs = append(sigs, sigInactiveConst)
 		} else {
 			if len(rest) > 6 {
 				rest = append(rest[:6], "...")
@@ -732,6 +804,7 @@ func main() {
 	// corpus: scripted traces (block index -> forced transactions), run first
 	const (
 		kReg, kUpd, kCancel, kReturn, kTopup = 0, 2, 3, 7, 8
+		kIllegal, kInactive, kActivate       = 10, 14, 15
 	)
 	type script struct {
 		kind string
@@ -746,6 +819,15 @@ func main() {
 		{"corpus:topup", cfg{Lockup: 3, LihStart: -1}, 10, map[int][][2]int{0: {{kReg, 0}, {kReg, 1}}, 7: {{kTopup, 0}}, 9: {{kTopup, 1}}}},
 		// cancel in the very block that activates the pending producer, then cancel again
 		{"corpus:cancel-in-activation-block", cfg{Lockup: 3, LihStart: -1}, 10, map[int][][2]int{0: {{kReg, 2}}, 5: {{kCancel, 2}}, 7: {{kCancel, 2}}}},
+		// penalties: inactive, reactivated, then illegal evidence and emergency-inactive in one block (+= / = ori mix)
+		{"corpus:penalty-mix", cfg{Lockup: 3, LihStart: -1, Penalties: true}, 22, map[int][][2]int{0: {{kReg, 0}}, 7: {{kInactive, 0}}, 8: {{kActivate, 0}},
+			16: {{kIllegal, 0}, {kInactive, 0}}}},
+		{"corpus:penalty-mix-reversed", cfg{Lockup: 3, LihStart: -1, Penalties: true}, 22, map[int][][2]int{0: {{kReg, 0}}, 7: {{kInactive, 0}}, 8: {{kActivate, 0}},
+			16: {{kInactive, 0}, {kIllegal, 0}}}},
+		// emergency-inactive naming a producer that is already inactive
+		{"corpus:inactive-twice", cfg{Lockup: 3, LihStart: -1, Penalties: true}, 12, map[int][][2]int{0: {{kReg, 1}}, 7: {{kInactive, 1}}, 9: {{kInactive, 1}}}},
+		// a reactivated producer (activateRequestHeight set) becomes inactive again
+		{"corpus:inactive-after-reactivation", cfg{Lockup: 3, LihStart: -1, Penalties: true}, 22, map[int][][2]int{0: {{kReg, 2}}, 7: {{kInactive, 2}}, 8: {{kActivate, 2}}, 17: {{kInactive, 2}}}},
 		// register, update, cancel, lock-up, return
 		{"corpus:lifecycle", cfg{Lockup: 2, LihStart: 2}, 14, map[int][][2]int{0: {{kReg, 3}, {kReg, 4}}, 2: {{kUpd, 3}}, 7: {{kCancel, 3}}, 8: {{kTopup, 4}}, 10: {{kReturn, 3}}, 12: {{kCancel, 4}}}},
 	}
@@ -755,6 +837,7 @@ func main() {
 		if rng.Chance(40) {
 			c.LihStart = rng.Range(0, 8)
 		}
+		c.Penalties = rng.Chance(35)
 		n := rng.Range(10, 26)
 		var sc *script
 		if t < len(corpus) {
@@ -763,7 +846,7 @@ func main() {
 		}
 		a := newInst(c)
 		g := &gen{rng: rng, a: a, deposits: map[int][]string{}, allowConflict: rng.Chance(15) || sc != nil, refIDs: map[string]int{}, nickIDs: map[string]int{},
-			scripted: sc != nil, modeSwitch: sc == nil && c.LihStart >= 0 && rng.Chance(50), illegal: sc == nil && rng.Chance(25), v2: sc == nil && rng.Chance(25)}
+			scripted: sc != nil, modeSwitch: sc == nil && c.LihStart >= 0 && rng.Chance(50), illegal: sc == nil && rng.Chance(25), v2: sc == nil && rng.Chance(25), inactive: c.Penalties}
 		start := a.abt.ChainParams.VoteStartHeight
 		var blocks []*blockd
 		snaps := []snap{takeSnap(a.abt)} // snaps[i] = after i blocks
@@ -780,7 +863,7 @@ func main() {
 				obs = append(obs, vecCoq(project(a, g)))
 			}
 		}
-		modelled := len(g.refIDs) <= nRef && g.nick <= nNick && !g.conflict && !g.unmodelled
+		modelled := len(g.refIDs) <= nRef && g.nick <= nNick && !g.conflict && !g.unmodelled && !g.reInactive && !g.specialMix
 		input := func(extra map[string]interface{}) map[string]interface{} {
 			m := map[string]interface{}{"config": c, "start": start, "blocks": blocks}
 			for k, v := range extra {
@@ -829,7 +912,7 @@ func main() {
 				changed = true
 			}
 			if fields, det := diff(now, snaps[k]); len(fields) > 0 {
-				report(classify(fields, g.conflict), fmt.Sprintf("after RollbackTo(%d) (one height at a time) the state differs from the state built from the first %d blocks in: %s",
+				report(classify(fields, g), fmt.Sprintf("after RollbackTo(%d) (one height at a time) the state differs from the state built from the first %d blocks in: %s",
 					start+uint32(k)-1, k, strings.Join(fields, ", ")), map[string]interface{}{"rollback_to_blocks": k, "detail": det})
 			}
 		}
@@ -843,7 +926,7 @@ func main() {
 			f.abt.RollbackTo(start + uint32(k) - 1)
 			f.best = start + uint32(k) - 1
 			if fields, det := diff(takeSnap(f.abt), snaps[k]); len(fields) > 0 {
-				report(classify(fields, g.conflict), fmt.Sprintf("after RollbackTo(%d) from height %d the state differs from the state built from the first %d blocks in: %s",
+				report(classify(fields, g), fmt.Sprintf("after RollbackTo(%d) from height %d the state differs from the state built from the first %d blocks in: %s",
 					start+uint32(k)-1, start+uint32(n)-1, k, strings.Join(fields, ", ")), map[string]interface{}{"rollback_to_blocks": k, "detail": det})
 				continue
 			}
@@ -851,7 +934,7 @@ func main() {
 				f.process(blocks[i].real())
 			}
 			if fields, det := diff(takeSnap(f.abt), snaps[n]); len(fields) > 0 {
-				report(classify(fields, g.conflict), fmt.Sprintf("rollback to %d blocks and re-processing the rest differs from the straight run in: %s",
+				report(classify(fields, g), fmt.Sprintf("rollback to %d blocks and re-processing the rest differs from the straight run in: %s",
 					k, strings.Join(fields, ", ")), map[string]interface{}{"rollback_to_blocks": k, "detail": det})
 			}
 		}
@@ -873,7 +956,7 @@ func main() {
 			kindName = sc.kind
 		}
 		st.Count(key.String(), changed, kindName)
-		if modelled {
+		if modelled && st.Hist["modelled-trace"] < run.N(60, 240) {
 			bl := make([]string, len(blocks))
 			for i, b := range blocks {
 				txs := make([]string, len(b.Txs))
@@ -883,8 +966,13 @@ func main() {
 				bl[i] = fmt.Sprintf("CBlock %d %d %s", b.Height, b.Time, lib.CoqList(txs))
 			}
 			p := a.abt.ChainParams
-			sh.Add(fmt.Sprintf("Trace %d %d %d %d %d %d %d 720\n    %s\n    %s\n    %s", t+1, len(keys), nNick, nRef,
+			illegalPenalty := int64(0)
+			if start >= p.CRConfiguration.ChangeCommitteeNewCRHeight {
+				illegalPenalty = int64(p.DPoSConfiguration.IllegalPenalty)
+			}
+			sh.Add(fmt.Sprintf("Trace %d %d %d %d %d %d %d 720 %d %d\n    %s\n    %s\n    %s", t+1, len(keys), nNick, nRef,
 				p.CRConfiguration.DepositLockupBlocks, p.DPoSConfiguration.RevertToPOWStartHeight, int64(p.MinTransactionFee),
+				int64(p.DPoSConfiguration.EmergencyInactivePenalty), illegalPenalty,
 				lib.CoqList(bl), lib.CoqList(obs), lib.CoqList(rbs)))
 			st.Hist["modelled-trace"]++
 		}
